@@ -324,6 +324,20 @@ def _bool_locals(body):
     return {i for i, l in enumerate(body.locals) if l["ty"] == "bool"}
 
 
+def _vkey(kv):
+    return repr(kv[0])
+
+
+def _bool_tuple_locals(body):
+    """{local: arity} for locals of type (bool, bool, ..)"""
+    out = {}
+    for i, l in enumerate(body.locals):
+        ty = l["ty"].replace(" ", "")
+        if ty.startswith("(bool") and ty.endswith(")") and set(ty[1:-1].split(",")) <= {"bool", ""}:
+            out[i] = len([x for x in ty[1:-1].split(",") if x])
+    return out
+
+
 def _enum_locals(body):
     """locals whose type is a field-less enum of the crate under analysis (a small finite state: tracked like the bools),
     plus the integer temporaries that hold their discriminants"""
@@ -340,18 +354,37 @@ def _enum_locals(body):
             ordered = any(im.get("self_adt") == path and im.get("trait") == "std::cmp::Ord" and im.get("derived") for im in facts.impls)
             plain[path] = ordered
     out = {}
+    carriers = {}      # local -> index of the "success" variant (Ok / Some / Continue); the payload is tracked when it is a plain enum
     for i, l in enumerate(body.locals):
-        if l["ty"] in plain:
-            out[i] = plain[l["ty"]]
+        ty = l["ty"]
+        if ty in plain:
+            out[i] = plain[ty]
+            continue
+        if ty.startswith("std::result::Result<"):
+            carriers[i] = 0
+        elif ty.startswith("std::option::Option<"):
+            carriers[i] = 1
+        elif ty.startswith("std::ops::ControlFlow<"):
+            carriers[i] = 0
     discr_tmps = set()
     for blk in body.blocks:
         for st in blk["stmts"]:
-            if st["k"] == "assign" and st["rv"]["k"] == "discr" and not st["dst"]["p"] and not st["rv"]["p"]["p"] and st["rv"]["p"]["l"] in out:
-                discr_tmps.add(st["dst"]["l"])
+            if st["k"] == "assign" and st["rv"]["k"] == "discr" and not st["dst"]["p"]:
+                pl = st["rv"]["p"]
+                if not pl["p"] and (pl["l"] in out or pl["l"] in carriers):
+                    discr_tmps.add(st["dst"]["l"])
+                elif pl["l"] in carriers and _is_payload_proj(pl["p"]):
+                    discr_tmps.add(st["dst"]["l"])
+    body._carriers = carriers
     return out, discr_tmps
 
 
-def flag_search(body, starts, init=None, stop=(), cut_edges=(), call_results=None, avoid=(), max_states=200000, on_state=None, stmt_results=None):
+def _is_payload_proj(p):
+    """projection `(x as Variant).0`"""
+    return len(p) == 2 and isinstance(p[0], dict) and "d" in p[0] and isinstance(p[1], dict) and p[1].get("f") == 0
+
+
+def flag_search(body, starts, init=None, stop=(), cut_edges=(), call_results=None, avoid=(), max_states=200000, on_state=None, stmt_results=None, track_bools=True):
     """Explicit-state reachability over (block, valuation of bool locals with known value).
 
     starts: iterable of blocks to start at (entered at their first statement)
@@ -362,8 +395,10 @@ def flag_search(body, starts, init=None, stop=(), cut_edges=(), call_results=Non
     call_results: {bb: bool}: the bool result of the call terminating bb is known
     Returns (reached_blocks, reached_edges).
     """
-    bl = _bool_locals(body)
+    bl = _bool_locals(body) if track_bools else set()
+    btl = _bool_tuple_locals(body) if track_bools else {}
     el, discr_tmps = _enum_locals(body)
+    carriers = getattr(body, "_carriers", None) or {}
     init = dict(init or {})
     call_results = call_results or {}
     stop = set(stop)
@@ -372,7 +407,7 @@ def flag_search(body, starts, init=None, stop=(), cut_edges=(), call_results=Non
     seen = set()
     reached = set()
     edges = set()
-    stack = [(s, tuple(sorted(init.items()))) for s in starts]
+    stack = [(s, tuple(sorted(init.items(), key=_vkey))) for s in starts]
     while stack:
         bb, val = stack.pop()
         if (bb, val) in seen:
@@ -401,9 +436,63 @@ def flag_search(body, starts, init=None, stop=(), cut_edges=(), call_results=Non
             if d["p"]:
                 continue
             l = d["l"]
+            if l in btl:
+                # a tuple of bools built to be matched on: `match (closed, available < need)`
+                rv = s["rv"]
+                for i_ in range(btl[l]):
+                    v.pop((l, i_), None)
+                if rv["k"] == "agg" and rv.get("ak") == "tuple" and len(rv["ops"]) == btl[l]:
+                    for i_, o_ in enumerate(rv["ops"]):
+                        x_ = _op_bool(o_, v)
+                        if x_ is not None:
+                            v[(l, i_)] = x_
+                continue
+            if l in carriers:
+                # Result<E,_> / Option<E> / ControlFlow<_,E> around a tracked enum E: ("W", variants) = the carrying variant
+                # with that payload, ("X",) = the other variant
+                rv = s["rv"]
+                nv = None
+                if rv["k"] == "agg" and rv.get("vi") is not None:
+                    if int(rv["vi"]) == carriers[l]:
+                        nv = ("W", None)
+                        if len(rv["ops"]) == 1:
+                            q = rv["ops"][0].get("c") or rv["ops"][0].get("m")
+                            if q is not None and not q["p"] and isinstance(v.get(q["l"]), tuple) and v[q["l"]] and v[q["l"]][0] not in ("W", "X"):
+                                nv = ("W", v[q["l"]])
+                    else:
+                        nv = ("X",)
+                elif rv["k"] == "use":
+                    q = rv["a"].get("c") or rv["a"].get("m")
+                    if q is not None and not q["p"] and q["l"] in carriers and isinstance(v.get(q["l"]), tuple):
+                        nv = v[q["l"]]
+                if nv is None:
+                    v.pop(l, None)
+                else:
+                    v[l] = nv
+                continue
             if l in el or l in discr_tmps:
                 rv = s["rv"]
                 nv = None
+                if l in el and rv["k"] == "use" and (rv["a"].get("c") or rv["a"].get("m")) is not None \
+                        and (rv["a"].get("c") or rv["a"].get("m"))["l"] in carriers and _is_payload_proj((rv["a"].get("c") or rv["a"].get("m"))["p"]):
+                    cv = v.get((rv["a"].get("c") or rv["a"].get("m"))["l"])
+                    if isinstance(cv, tuple) and cv and cv[0] == "W" and cv[1] is not None:
+                        v[l] = cv[1]
+                    else:
+                        v.pop(l, None)
+                    continue
+                if l in discr_tmps and rv["k"] == "discr" and rv["p"]["l"] in carriers:
+                    cv = v.get(rv["p"]["l"])
+                    if isinstance(cv, tuple) and cv:
+                        if not rv["p"]["p"]:
+                            nv = (carriers[rv["p"]["l"]],) if cv[0] == "W" else ((1 - carriers[rv["p"]["l"]],) if cv[0] == "X" else None)
+                        elif cv[0] == "W" and cv[1] is not None and _is_payload_proj(rv["p"]["p"]):
+                            nv = cv[1]
+                    if nv is None:
+                        v.pop(l, None)
+                    else:
+                        v[l] = nv
+                    continue
                 if l in el:
                     if rv["k"] == "agg" and rv.get("vi") is not None and not rv["ops"]:
                         nv = (int(rv["vi"]),)
@@ -516,6 +605,21 @@ def flag_search(body, starts, init=None, stop=(), cut_edges=(), call_results=Non
                 v[d["l"]] = res
             if t.get("t") is not None:
                 nxt = [t["t"]]
+        elif k == "call" and not t["dst"]["p"] and t["dst"]["l"] in carriers:
+            d = t["dst"]
+            res = None
+            if t["f"].get("name") == "from_residual":
+                res = ("X",)                  # FromResidual::from_residual builds the Err / None / Break value
+            if t["f"].get("name") == "branch" and len(t["args"]) == 1:
+                q = t["args"][0].get("c") or t["args"][0].get("m")
+                if q is not None and not q["p"] and q["l"] in carriers and isinstance(v.get(q["l"]), tuple):
+                    res = v[q["l"]]           # Ok(x) -> Continue(x); Err -> Break
+            if res is None:
+                v.pop(d["l"], None)
+            else:
+                v[d["l"]] = res
+            if t.get("t") is not None:
+                nxt = [t["t"]]
         elif k == "call":
             d = t["dst"]
             if not d["p"] and d["l"] in bl:
@@ -527,7 +631,7 @@ def flag_search(body, starts, init=None, stop=(), cut_edges=(), call_results=Non
                 nxt = [t["t"]]
         else:
             nxt = body.succ[bb]
-        nv = tuple(sorted(v.items()))
+        nv = tuple(sorted(v.items(), key=_vkey))
         for s in nxt:
             if (bb, s) in cut or s in avoid:
                 continue
@@ -543,6 +647,9 @@ def _op_bool(op, v):
     p = op.get("c") or op.get("m")
     if p is not None and not p["p"]:
         return v.get(p["l"])
+    if p is not None and len(p["p"]) == 1 and isinstance(p["p"][0], dict) and "f" in p["p"][0]:
+        x = v.get((p["l"], p["p"][0]["f"]))
+        return x if isinstance(x, bool) else None
     return None
 
 
@@ -695,6 +802,11 @@ def _container_root(e):
             if proj and e.bb is not None:
                 # a component of this call's result (e.g. one half of partition()): the call site + component
                 return ("call", e.bb, tuple(proj))
+            if e.bb is not None and len(e.args or []) == 2 and (e.q or "").split("::")[-1] in ("index", "index_mut", "get", "get_mut", "split_at", "split_at_mut"):
+                r_ = peel(e.args[1], through_try=False)
+                if r_ is not None and r_.k == "agg" and (r_.adt or "").startswith("std::ops::Range") and r_.adt != "std::ops::RangeFull":
+                    # `x[a..b]` is a different (shorter) container than x: identified by where it was taken
+                    return ("sub", e.bb)
             if e.args:
                 e = peel(e.args[0])
             else:
@@ -746,6 +858,19 @@ def _same_value(body, x, y, edge, use_bb, depth=0):
     return False
 
 
+def _expr_mutated_between(body, e, from_bbs, use_bb):
+    """may a container whose len() occurs in e be mutated between one of from_bbs and use_bb ?"""
+    for x in walk(e):
+        if x.k == "call" and (x.q or "").split("::")[-1] in LEN_ACCESSORS and x.args:
+            root = _container_root(x.args[0])
+            if root is None:
+                continue
+            for f in from_bbs:
+                if _mutated_between(body, root, (f, f), use_bb):
+                    return True
+    return False
+
+
 def _same_len_now(x, y):
     """both are len() of the same container, evaluated for the same operation (no intervening code)"""
     px, py = peel(x, through_try=False), peel(y, through_try=False)
@@ -764,12 +889,39 @@ def _const_of(e):
     return None
 
 
-def known_ge(body, bb, a, b):
+def known_ge(body, bb, a, b, _depth=0):
     """Is a >= b established at bb (by dominating guards or by construction b = min(a, ..))?"""
     pa, pb = peel(a, through_try=False), peel(b, through_try=False)
     cb = _const_of(pb)
     if cb == 0:
         return True
+    if _depth < 3:
+        # b chosen by hand between alternatives (`let n = if x.len() < room { x.len() } else { room };`): a >= b if a >= each
+        # alternative where that alternative is assigned (the facts of its branch hold there), a itself not changing up to bb
+        if pb.k == "multi" and pb.alts and 2 <= len(pb.alts) <= 4:
+            ds = body.defs().get(pb.local, [])
+            if len(ds) == len(pb.alts):
+                ok = True
+                for (dbb, si, kind, payload), alt in zip(ds, pb.alts):
+                    if not (bb in body.reachable(dbb) or dbb == bb):
+                        ok = False
+                        break
+                    # (a value assigned by a call terminator exists from the call's return block on)
+                    at = body.term(dbb).get("t") if kind == "call" and body.term(dbb).get("t") is not None else dbb
+                    if _same_value(body, pa, alt, (dbb, dbb), bb) or known_ge(body, at, a, alt, _depth + 1):
+                        continue
+                    ok = False
+                    break
+                if ok and not _expr_mutated_between(body, pa, [d[0] for d in ds], bb):
+                    return True
+        # b = x * c  with  x <= a / c
+        if pb.k == "bin" and pb.op == "Mul":
+            for x, c in ((pb.a, pb.b), (pb.b, pb.a)):
+                if peel(x, through_try=False).k in ("multi", "local") or True:
+                    q = E("bin", op="Div", a=pa, b=c)
+                    px = peel(x, through_try=False)
+                    if px.k == "multi" and known_ge(body, bb, q, x, _depth + 1):
+                        return True
     # b = min(a, x)
     if pb.k == "call" and (pb.q in MIN_CALLS or pb.rq in MIN_CALLS) and any(_same_expr(x, pa) for x in pb.args):
         return True
